@@ -374,7 +374,7 @@ def check_C09(tier, seed):
         rep.add_tlc(s, "behaviour generation (-simulate) with interruptions", "AcnSim_gen MaxCrash=2")
     tiny, st2 = gen_behaviours("AcnSim_gen_tiny", {"MaxCrash": "= 1", "AllowDump": "= TRUE"}, 0, 0, seed, exhaustive=True)
     rep.add_tlc(st2[0], "behaviour generation (exhaustive tiny configuration, every crash point)", "AcnSim_gen_tiny")
-    allb = [b for b in tiny + bhvs if any(r["a"] in ("raise", "reject") for r in b)]
+    allb = [b for b in tiny + bhvs if any(r["a"] in ("raise", "reject", "dumpload") for r in b)]
     jobs = [(b, _kw_cycle(i, seed), seed * 100003 + i) for i, b in enumerate(allb)]
     for (b, kw, _), d in zip(jobs, run_pool(_work_twin, jobs, 12)):
         if d is not None and d["owner"] != "C09" and d.get("twin_ok"):
